@@ -328,10 +328,11 @@ structure SameSkel (g g' : Genome W) : Prop where
   genes : g'.genes.map geneKey = g.genes.map geneKey
   nodes : g'.nodes.map Node.shape = g.nodes.map Node.shape
   tids : traitIds g' = traitIds g
+  mods : g'.modules = g.modules
 
-theorem SameSkel.refl (g : Genome W) : SameSkel g g := ⟨rfl, rfl, rfl⟩
+theorem SameSkel.refl (g : Genome W) : SameSkel g g := ⟨rfl, rfl, rfl, rfl⟩
 theorem SameSkel.trans {a b c : Genome W} (h1 : SameSkel a b) (h2 : SameSkel b c) : SameSkel a c :=
-  ⟨h2.genes.trans h1.genes, h2.nodes.trans h1.nodes, h2.tids.trans h1.tids⟩
+  ⟨h2.genes.trans h1.genes, h2.nodes.trans h1.nodes, h2.tids.trans h1.tids, h2.mods.trans h1.mods⟩
 
 theorem SameSkel.inns {g g' : Genome W} (h : SameSkel g g') : g'.genes.map (·.inn) = g.genes.map (·.inn) := by
   have := congrArg (List.map Prod.fst) h.genes
